@@ -86,8 +86,16 @@ def gen_box(r, x0):
         else:
             lo, hi = xi - P1.dy(r, 0, 3), xi + P1.dy(r, 0, 3)
         if r.random() < 0.25 and lo > -INF:
-            x[i] = lo                          # start on a face
+            x[i] = lo                          # start on a lower face
+        elif r.random() < 0.2 and hi < INF:
+            x[i] = hi                          # start on an upper face
         bs.append((lo, hi))
+    if r.random() < 0.12:                      # start on a vertex: every coordinate with a finite bound sits on one
+        for i, (lo, hi) in enumerate(bs):
+            if lo > -INF and (hi == INF or r.random() < 0.5):
+                x[i] = lo
+            elif hi < INF:
+                x[i] = hi
     return bs, x
 
 
@@ -100,7 +108,11 @@ def gen_cases(ctx, count):
         st = c['st']
         s2 = dict(t1=st['t1'], t2=st['t2'], eta1=st['eta1'], eta2=st['eta2'], eta3=st['eta3'], max_trust_iters=min(st['max_trust_iters'], 12), tol=st['tol'],
                   max_spg_iters=r.choice([25, 25, 2, 5]), max_cumulative_spg_iters=r.choice([1000, 1000, 6]), tr_size=st['tr_size'], min_tr_size=st['min_tr_size'],
-                  spg_use_nonmonotone=r.random() < 0.6, use_incremental_objective=st['use_incremental_objective'])
+                  spg_use_nonmonotone=r.random() < 0.6, use_incremental_objective=st['use_incremental_objective'],
+                  spg_nonmonotone_iter_limit_to_enforce_decrease=r.choice([10, 10, 1, 2]), spg_inexact_solve_ratio=r.choice([1e-4, 1e-4, 1e-1, 1e-8]),
+                  cauchy_point_max_line_search_iters=r.choice([25, 25, 4]), cauchy_point_sufficient_decrease_factor=r.choice([1e-4, 1e-4, 0.3]),
+                  min_spectral_step_length=r.choice([1e-12, 1e-12, 1e-2]), max_spectral_step_length=r.choice([1e12, 1e12, 10.0]),
+                  use_preconditioned_inner_product_for_spg=r.random() < 0.2)
         out.append(dict(c, x0=x0, bounds=bs, st=s2, E=[[0.0] * c['n'] for _ in range(c['n'])], pk=0))
     return out
 
@@ -136,6 +148,15 @@ def run_impl(case, mods, noise=None):
         return r
     TR.kouri_exact_line_search = logged_k
     TR.solve_spg_subproblem = logged
+    orig_c = TR.is_converged
+    margin = [math.inf]
+
+    def logged_c(objective, xx, realO, modelO, realOpt, *a, **k):
+        ro = float(realOpt)
+        if ro == ro:
+            margin[0] = min(margin[0], abs(ro - st.tol) / st.tol)
+        return orig_c(objective, xx, realO, modelO, realOpt, *a, **k)
+    TR.is_converged = logged_c
     old = signal.signal(signal.SIGALRM, _alarm)
     signal.alarm(60)
     err = None
@@ -153,7 +174,8 @@ def run_impl(case, mods, noise=None):
         signal.signal(signal.SIGALRM, old)
         TR.solve_spg_subproblem = orig
         TR.kouri_exact_line_search = orig_k
-    return dict(x=x, flag=flag, log=obj.log, props=props, obj=obj, settings=st, err=err, bounds=bounds,
+        TR.is_converged = orig_c
+    return dict(x=x, flag=flag, log=obj.log, props=props, obj=obj, settings=st, err=err, bounds=bounds, conv_margin=margin[0],
                 min_alpha=min([a for a in alphas if a == a] + [0.0]))
 
 
@@ -220,6 +242,114 @@ def model_expr(case, out):
     return 'run_bc %s %s %s %s %s %s %s %s' % (cmat(case['A']), cvec(case['b']), cvec(case['c']), cvec(case['d']), cbounds(case['bounds']), props, cvec(case['x0']), s)
 
 
+def convex_box_cases(ctx, count):
+    """strictly convex objectives (diagonally dominant A >= I, optional quartic d >= 0) over boxes whose constrained minimiser has active, inactive
+    and degenerate components; default settings"""
+    r = ctx.rng('convexbox')
+    out = []
+    for i in range(count):
+        n = [1, 2, 3, 4, 6, 8][i % 6]
+        a = [[0.0] * n for _ in range(n)]
+        for p in range(n):
+            for q in range(p):
+                a[p][q] = a[q][p] = P1.dy(r, -1, 1)
+        for p in range(n):
+            a[p][p] = P1.dy(r, 1, 4) + sum(abs(a[p][q]) for q in range(n) if q != p)
+        b = [P1.dy(r, -6, 6) for _ in range(n)]
+        d = [P1.dy(r, 0, 2) if i % 2 else 0.0 for _ in range(n)]
+        x0 = [P1.dy(r, -2, 2) for _ in range(n)]
+        bs, x0 = gen_box(r, x0)
+        st = dict(t1=0.25, t2=1.75, eta1=1e-10, eta2=0.1, eta3=0.5, max_trust_iters=100, tol=1e-8, max_spg_iters=25, max_cumulative_spg_iters=1000,
+                  tr_size=2.0, min_tr_size=1e-8, spg_use_nonmonotone=(i % 4 < 2), use_incremental_objective=False)
+        out.append(dict(n=n, kind='convex-box', A=a, E=[[0.0] * n for _ in range(n)], b=b, c=[0.0] * n, d=d, pk=0, x0=x0, bounds=bs, st=st))
+    return out
+
+
+def box_reference(case):
+    """independent reference minimiser: projected Newton with an active-set guess, verified by its own projected-gradient residual"""
+    a, b, d = onp.array(case['A']), onp.array(case['b']), onp.array(case['d'])
+    lo = onp.array([l for l, _ in case['bounds']])
+    hi = onp.array([h for _, h in case['bounds']])
+    x = onp.clip(onp.array(case['x0'], dtype=float), lo, hi)
+    f = lambda v: 0.5 * v @ a @ v + b @ v + d @ v ** 4
+    grad = lambda v: a @ v + b + 4 * d * v ** 3
+    for _ in range(2000):
+        g = grad(x)
+        if onp.linalg.norm(onp.clip(x - g, lo, hi) - x) < 1e-14:
+            break
+        act = ((x <= lo) & (g > 0)) | ((x >= hi) & (g < 0))
+        fr = ~act
+        step = onp.zeros_like(x)
+        if fr.any():
+            hfull = a + onp.diag(12 * d * x ** 2)
+            step[fr] = onp.linalg.solve(hfull[onp.ix_(fr, fr)], -g[fr])
+        t, moved = 1.0, False
+        while t > 1e-16:
+            y = onp.clip(x + t * step, lo, hi)
+            if f(y) <= f(x) + 1e-4 * (g @ (y - x)) and not onp.array_equal(y, x):
+                moved = True
+                break
+            t *= 0.5
+        if not moved:                       # projected-gradient fallback
+            t = 1.0
+            while t > 1e-16:
+                y = onp.clip(x - t * g, lo, hi)
+                if f(y) < f(x):
+                    moved = True
+                    break
+                t *= 0.5
+        if not moved:
+            break
+        x = y
+    g = grad(x)
+    return x, float(onp.linalg.norm(onp.clip(x - g, lo, hi) - x))
+
+
+def convex_box_stream(ctx, mods):
+    """L2 for 'for convex problems that point is the bound-constrained minimizer' (+ a re-solve history from the returned point in a tightened box)"""
+    jnp, TR = mods
+    n_succ = n_hist = 0
+    for c in convex_box_cases(ctx, ctx.n(30, 200)):
+        o = run_impl(c, mods)
+        ctx.count('evaluations')
+        ctx.count('convex_box_cases')
+        bad = list(concl(c, o, mods))
+        if o['flag']:
+            n_succ += 1
+            xs, rres = box_reference(c)
+            if rres < 1e-10:
+                a = onp.array(c['A'])
+                xr = onp.array(o['x'])
+                mu = 1.0                                               # A - I is diagonally dominant with non-negative diagonal
+                lip = float(onp.linalg.norm(a + onp.diag(12 * onp.array(c['d']) * onp.maximum(xr, xs) ** 2), 2))
+                lim = (1.0 + lip) / mu * c['st']['tol'] + 1e-9
+                dist = float(onp.linalg.norm(xr - xs))
+                if not dist <= lim:
+                    bad.append(('not-minimiser', 'success reported on a strictly convex box problem but the returned point is %.3g away from the constrained minimiser (limit %.3g)' % (dist, lim)))
+            else:
+                ctx.count('convex_box_reference_unconverged')
+            # history: tighten the box around the solution so that the returned point (projected) starts on faces / a vertex, solve again
+            if o['x'] is not None:
+                rr = ctx.rng('hist' + json.dumps(c['x0']))
+                nb = []
+                for xi, (lo, hi) in zip(o['x'], c['bounds']):
+                    k = rr.randrange(3)
+                    nb.append((max(lo, xi + 0.25), hi) if k == 0 and xi + 0.25 <= hi else (lo, min(hi, xi - 0.25)) if k == 1 and xi - 0.25 >= lo else (lo, hi))
+                x1 = [min(max(xi, lo), hi) for xi, (lo, hi) in zip(o['x'], nb)]
+                c2 = dict(c, x0=x1, bounds=nb, kind='convex-box-history')
+                o2 = run_impl(c2, mods)
+                n_hist += 1
+                ctx.count('evaluations')
+                for tag, b in concl(c2, o2, mods):
+                    ctx.fail('conclusion', 'bound_constrained_trust_region_minimize (re-solve from a returned point on the faces of a tightened box): ' + b,
+                             case=dict({k: v for k, v in c2.items()}, tag=tag, impl=dict(x=o2['x'], flag=o2['flag'], log=o2['log'], err=o2['err'], min_alpha=o2['min_alpha'])), concrete=True)
+        for tag, b in bad:
+            ctx.fail('conclusion', 'bound_constrained_trust_region_minimize (convex, default settings): ' + b,
+                     case=dict({k: v for k, v in c.items()}, tag=tag, impl=dict(x=o['x'], flag=o['flag'], log=o['log'], err=o['err'], min_alpha=o['min_alpha'])), concrete=True)
+    ctx.cov['convex_box_successes'] = n_succ
+    ctx.cov['convex_box_history_resolves'] = n_hist
+
+
 def gen_projection_cases(ctx, count):
     r = ctx.rng('proj')
     out = []
@@ -282,6 +412,7 @@ def correspondence(ctx, model_ok):
         for tag, b in concl(c, o, mods):
             ctx.fail('conclusion', 'bound_constrained_trust_region_minimize: ' + b,
                      case=dict({k: v for k, v in c.items()}, tag=tag, impl=dict(x=o['x'], flag=o['flag'], log=o['log'], err=o['err'], min_alpha=o['min_alpha'])), concrete=True)
+    convex_box_stream(ctx, mods)
     # ---- direct calls of project / project_onto_tr, brentq's answer logged
     pcases = gen_projection_cases(ctx, ctx.n(150, 1500))
     pouts = []
@@ -381,8 +512,8 @@ def correspondence(ctx, model_ok):
                 ok, what = False, 'returned point differs: model %r, implementation %r' % (x, o['x'])
         if ok:
             continue
-        stable = True
-        for k in range(4):
+        stable = not o['conv_margin'] < 1e-6          # the convergence test realOptimality < tol itself was a near tie
+        for k in range(8 if stable else 0):
             o2 = run_impl(c, mods, onp.random.RandomState(ctx.seed % 100000 + 17 * k))
             if discrete(o2) != discrete(o) or (o2['x'] is not None and not P1.close_vec(o2['x'], o['x'], 1e-7, 1e-9)):
                 stable = False
